@@ -38,6 +38,11 @@ pub struct Case {
     /// (kept only while that is a skew of at most 1000:1)
     #[serde(default)]
     pub equal_raw: bool,
+    /// outside C19's stated ranges, for the engines that have something to say there: engine 1 gives
+    /// one asset 19-24 decimals (beyond the 18 the fixed-point type carries: refuse or be right),
+    /// C03's numeric engine multiplies the amplification by 10^k (C03 holds for all amplifications)
+    #[serde(default)]
+    pub beyond: Option<u8>,
 }
 
 pub fn dec_mix() -> impl Strategy<Value = Vec<u8>> {
@@ -64,10 +69,10 @@ pub fn case_strat() -> impl Strategy<Value = Case> {
         0u8..8,
         valid_fees(),
         proptest::option::weighted(0.05, prop_oneof![3 => 700u16..=1300, 1 => 300u16..=4300]),
-        proptest::bool::weighted(0.04),
+        (proptest::bool::weighted(0.04), proptest::option::weighted(0.03, 1u8..=6)),
     )
-        .prop_map(|(amp, decimals, size_exp, mant, share, oi, ai, offer_ppm, jitter, fees, boundary, equal_raw)| Case {
-            amp, decimals, size_exp, mant, share, oi, ai, offer_ppm, jitter, fees, boundary, equal_raw,
+        .prop_map(|(amp, decimals, size_exp, mant, share, oi, ai, offer_ppm, jitter, fees, boundary, (equal_raw, beyond))| Case {
+            amp, decimals, size_exp, mant, share, oi, ai, offer_ppm, jitter, fees, boundary, equal_raw, beyond,
         })
 }
 
@@ -181,6 +186,18 @@ impl Engine for C19Swap {
         case_strat().boxed()
     }
     fn run(&self, c: &Case, st: &mut Stats) -> Result<(), String> {
+        // an asset with more decimals than the 18 the contract's fixed point carries
+        let widened;
+        let c = if let Some(k) = c.beyond {
+            let mut d = c.decimals.clone();
+            let i = (c.oi as usize + k as usize) % d.len();
+            d[i] = 18 + k.clamp(1, 6);
+            widened = Case { decimals: d, size_exp: c.size_exp.min(3), ..c.clone() };
+            st.bump("states with an asset of more than 18 decimals");
+            &widened
+        } else {
+            c
+        };
         let s = match build_state(c) {
             Some(s) => s,
             None => {
